@@ -145,6 +145,7 @@ type statsM struct {
 	SyncHash       uint64
 	SyncEvents     uint64
 	AtomicPoints   uint64
+	ChanWaits      uint64
 	Blocked        uint64
 	ReaderPendingW uint64
 	OverlapSame    uint64
@@ -565,6 +566,7 @@ func (a *agg) add(l *lineM) {
 	a.probes["preempt_inside_splat_window"] += r.Stats.PreemptInWin
 	a.probes["task_blocked_on_lock"] += r.Stats.Blocked
 	a.probes["atomic_map_pool_decision_points"] += r.Stats.AtomicPoints
+	a.probes["channel_waits_inside_library"] += r.Stats.ChanWaits
 	a.probes["reader_blocked_by_pending_writer"] += r.Stats.ReaderPendingW
 	for k, v := range r.OpKinds {
 		a.opKinds[k] += v
